@@ -241,7 +241,7 @@ def from_insts(job):
         else:
             kw["paramtype"] = mk_paramclass(x["name"] + "Params", x["fields"])
         exts.append(h.ExternalModule(**kw))
-    m = h.Module(name=job["name"])
+    m = mk_module(job, job["name"])
     k = 0
     for x in job["insts"]:
         params = {p: mk_value(v) for p, v in x["params"]}
@@ -260,9 +260,19 @@ def from_insts(job):
         m.literals.append(h.Literal(t))
     top = m
     if job.get("wrap"):
-        top = h.Module(name=job["name"] + "Top")
+        top = mk_module(job, job["name"] + "Top")
         top.add(m(), name="u")
     return [h.to_proto(top, domain=job.get("domain"))]
+
+
+# Modules defined outside any Python module (an `exec` of a string, a notebook cell) are exported under their bare,
+# un-dotted name: the factory below is compiled in a namespace without `__name__`.
+_BARE = {}
+exec("def mk(h, name):\n    return h.Module(name=name)\n", _BARE)
+
+
+def mk_module(job, name):
+    return _BARE["mk"](h, name) if job.get("bare") else h.Module(name=name)
 
 
 def live_enums(job):
